@@ -1290,6 +1290,10 @@ class MultiTenantWorker(Worker):
         self._last_used_by_client = {}
 
     def get_tenant_schema(self, client_id: int) -> TenantSchema | None:
+        if client_id in self._invalidated_clients:
+            # The worker process drops the invalidated clients before it
+            # syncs, so what we recorded about this client no longer holds.
+            return None
         return self._cache.get(client_id)
 
     def set_tenant_schema(
@@ -1401,6 +1405,9 @@ class MultiTenantPool(FixedPool):
             database_config=None,
             instance_config=None,
         ):
+            # Same order as in the worker process: invalidation first, so
+            # that a client re-synced by this call is not forgotten again.
+            worker.flush_invalidation()
             tenant_schema = worker.get_tenant_schema(client_id)
             if tenant_schema is None:
                 assert user_schema_pickle is not None
@@ -1466,7 +1473,6 @@ class MultiTenantPool(FixedPool):
                     tenant_schema.global_schema_pickle = global_schema_pickle
                 if instance_config is not None:
                     tenant_schema.system_config = instance_config
-            worker.flush_invalidation()
 
         client_id = worker.current_client_id
         assert client_id is not None
